@@ -195,6 +195,13 @@ theorem trimApply_correct (pcs : List PatternChar) (hd : astDefined (parseAtoms 
   rw [hp]
   exact trim_correct (parseAtoms pcs) hn side len p hp v
 
+/-- ★ and the Array arm of `trim::apply` (`"${@#pat}"`): every element is trimmed, each exactly as the Spec says -/
+theorem trimArray_correct (pcs : List PatternChar) (hd : astDefined (parseAtoms pcs) = true)
+    (hn : noMulti (parseAtoms pcs) = true) (side : TrimSide) (len : TrimLength) (vs : List (List Char)) :
+    trimArray side len pcs vs = vs.map (specTrim side len (parseAtoms pcs)) := by
+  unfold trimArray
+  exact List.map_congr_left (fun v _ => trimApply_correct pcs hd hn side len v)
+
 /-- non-vacuity: `[![:digit:]x-z]*[[.-.]]` is defined and has no multi-character element -/
 example :
     let ast : Ast := [.bracket ⟨true, [.atom (.cls "digit".toList), .range (.char 'x') (.char 'z')]⟩, .anyString,
